@@ -18,6 +18,7 @@ import (
 	"fmt"
 	"go/ast"
 	"go/parser"
+	"go/printer"
 	"go/token"
 	"math/big"
 	"os"
@@ -56,11 +57,20 @@ type LitTarget struct { // literal operands compared/assigned in a function: e.g
 	Func string `json:"func"`
 	Key  string `json:"key"`
 }
+type StructLitTarget struct { // the key=value elements of every composite literal of a named type inside a function
+	File string `json:"file"`
+	Recv string `json:"recv"`
+	Func string `json:"func"`
+	Type string   `json:"type"` // e.g. "structs.SegMeta"
+	Key  string   `json:"key"`
+	Stop []string `json:"stop"` // callees NOT to look into (protocol functions with a fact of their own)
+}
 type Spec struct {
 	Functions []FuncTarget      `json:"functions"`
 	Consts    []ConstTarget     `json:"consts"`
 	CallOrder []CallOrderTarget `json:"callorder"`
 	Literals  []LitTarget       `json:"literals"`
+	StructLits []StructLitTarget `json:"structlits"`
 }
 
 var fset = token.NewFileSet()
@@ -813,8 +823,41 @@ func callOrder(fd *ast.FuncDecl, only []string) []string {
 	//             attempt and the assignments that record it)
 	//   "=:name"  an assignment to the local variable `name` is recorded as "=:name" (C19)
 	//   "continue" every continue statement (C19: which calls of a loop body sit behind the membership test)
+	//   "[]=name" an assignment  name[…] = …  to the (package-level or local) map/slice `name` (C11: the insert into allSegStores)
+	//   "[]name"  a READ  name[…]  (an index expression that is not the left-hand side of an assignment), or the call of a
+	//             function of the same file whose body contains such a read and that is not asked for by its own name
+	//             (C11: the re-check of allSegStores under the lock, wherever a refactoring puts the look-up)
+	idxLhs := map[ast.Node]bool{}
+	isIdx := func(n ast.Node, pre string) bool {
+		ix, ok := n.(*ast.IndexExpr)
+		if !ok {
+			return false
+		}
+		id, ok := ix.X.(*ast.Ident)
+		return ok && keep[pre+id.Name]
+	}
 	var visit func(n ast.Node) bool
 	visit = func(n ast.Node) bool {
+		if as, ok := n.(*ast.AssignStmt); ok {
+			for _, l := range as.Lhs {
+				idxLhs[l] = true
+				if isIdx(l, "[]=") {
+					res = append(res, "[]="+l.(*ast.IndexExpr).X.(*ast.Ident).Name)
+				}
+			}
+		}
+		if isIdx(n, "[]") && !idxLhs[n] {
+			res = append(res, "[]"+n.(*ast.IndexExpr).X.(*ast.Ident).Name)
+		}
+		if ce, ok := n.(*ast.CallExpr); ok && callOrderFile != nil {
+			if id, ok := ce.Fun.(*ast.Ident); ok && !keep[id.Name] {
+				for _, name := range readsInHelper(callOrderFile, id.Name) {
+					if keep["[]"+name] {
+						res = append(res, "[]"+name)
+					}
+				}
+			}
+		}
 		if _, ok := n.(*ast.ReturnStmt); ok && keep["return"] {
 			res = append(res, "return")
 		}
@@ -878,6 +921,130 @@ func callOrder(fd *ast.FuncDecl, only []string) []string {
 	}
 	ast.Inspect(fd.Body, visit)
 	return res
+}
+
+// the file of the function callOrder is working on (for the "[]name" pseudo-name: reads inside same-file helpers)
+var callOrderFile *ast.File
+
+// names of the identifiers that the top-level function `fn` of file f reads by index (x[…] not on the left of an assignment)
+func readsInHelper(f *ast.File, fn string) []string {
+	var res []string
+	for _, d := range f.Decls {
+		fd, ok := d.(*ast.FuncDecl)
+		if !ok || fd.Recv != nil || fd.Body == nil || fd.Name.Name != fn {
+			continue
+		}
+		lhs := map[ast.Node]bool{}
+		seen := map[string]bool{}
+		ast.Inspect(fd.Body, func(n ast.Node) bool {
+			if as, ok := n.(*ast.AssignStmt); ok {
+				for _, l := range as.Lhs {
+					lhs[l] = true
+				}
+			}
+			if ix, ok := n.(*ast.IndexExpr); ok && !lhs[n] {
+				if id, ok := ix.X.(*ast.Ident); ok && !seen[id.Name] {
+					seen[id.Name] = true
+					res = append(res, id.Name)
+				}
+			}
+			return true
+		})
+	}
+	return res
+}
+
+// "Field=expr" for every keyed element of every composite literal of type typ that fd builds — in fd itself or in a
+// function/method of the same file that fd calls (up to `follow` levels, never into the functions named in stop: a
+// refactoring may move the literal into a helper) —
+// in source order; a literal is preceded by one "{cond" per if/for/switch/func-literal it sits in (under which
+// conditions the record is built; for a helper: nesting of the call + nesting inside the helper); literals are
+// separated by "|".  Expressions are normalised: a selector on the method receiver becomes "recv.<field>", anything
+// else that is not a selector chain (locals, parameters, calls) becomes "local" — the fact says WHICH RUNNING FIELD
+// feeds which field of the record, not how the variables are called.
+func structLits(file *ast.File, fd *ast.FuncDecl, typ string, follow int, stop map[string]bool) []string {
+	var res []string
+	recv := ""
+	if fd.Recv != nil && len(fd.Recv.List) > 0 && len(fd.Recv.List[0].Names) > 0 {
+		recv = fd.Recv.List[0].Names[0].Name
+	}
+	norm := func(e ast.Expr) string {
+		if se, ok := e.(*ast.SelectorExpr); ok {
+			if id, ok := se.X.(*ast.Ident); ok && id.Name == recv && recv != "" {
+				return "recv." + se.Sel.Name
+			}
+			return exprString(e)
+		}
+		return "local"
+	}
+	var walk func(n ast.Node, depth int)
+	walk = func(n ast.Node, depth int) {
+		ast.Inspect(n, func(x ast.Node) bool {
+			if x == nil || x == n {
+				return true
+			}
+			switch y := x.(type) {
+			case *ast.IfStmt, *ast.ForStmt, *ast.RangeStmt, *ast.SwitchStmt, *ast.TypeSwitchStmt, *ast.SelectStmt, *ast.FuncLit:
+				walk(y, depth+1)
+				return false
+			case *ast.CallExpr:
+				if follow <= 0 {
+					return true
+				}
+				name := ""
+				switch f := y.Fun.(type) {
+				case *ast.Ident:
+					name = f.Name
+				case *ast.SelectorExpr:
+					if id, ok := f.X.(*ast.Ident); ok && id.Name == recv {
+						name = f.Sel.Name
+					}
+				}
+				if name == "" || name == fd.Name.Name || stop[name] {
+					return true
+				}
+				for _, d := range file.Decls {
+					if hd, ok := d.(*ast.FuncDecl); ok && hd.Body != nil && hd.Name.Name == name {
+						sub := structLits(file, hd, typ, follow-1, stop)
+						if len(sub) > 0 {
+							if len(res) > 0 {
+								res = append(res, "|")
+							}
+							for i := 0; i < depth; i++ {
+								res = append(res, "{cond")
+							}
+							res = append(res, sub...)
+						}
+					}
+				}
+			case *ast.CompositeLit:
+				if y.Type != nil && exprString(y.Type) == typ {
+					if len(res) > 0 {
+						res = append(res, "|")
+					}
+					for i := 0; i < depth; i++ {
+						res = append(res, "{cond")
+					}
+					for _, el := range y.Elts {
+						if kv, ok := el.(*ast.KeyValueExpr); ok {
+							res = append(res, exprString(kv.Key)+"="+norm(kv.Value))
+						} else {
+							res = append(res, "="+norm(el))
+						}
+					}
+				}
+			}
+			return true
+		})
+	}
+	walk(fd.Body, 0)
+	return res
+}
+
+func exprString(e ast.Expr) string {
+	var sb strings.Builder
+	_ = printer.Fprint(&sb, token.NewFileSet(), e)
+	return strings.Join(strings.Fields(sb.String()), " ")
 }
 
 func literalsOf(fd *ast.FuncDecl) []string {
@@ -994,7 +1161,9 @@ func main() {
 			rc = 1
 			continue
 		}
+		callOrderFile = f
 		facts[c.Key] = callOrder(fd, c.Only)
+		callOrderFile = nil
 	}
 	for _, c := range spec.Literals {
 		f, err := parseFile(*repo, c.File)
@@ -1010,6 +1179,25 @@ func main() {
 			continue
 		}
 		facts[c.Key] = literalsOf(fd)
+	}
+	for _, c := range spec.StructLits {
+		f, err := parseFile(*repo, c.File)
+		if err != nil {
+			fmt.Printf("UNSUPPORTED structlits %s: %v\n", c.Key, err)
+			rc = 1
+			continue
+		}
+		fd := findFunc(f, c.Recv, c.Func)
+		if fd == nil {
+			fmt.Printf("UNSUPPORTED structlits %s: function not found\n", c.Key)
+			rc = 1
+			continue
+		}
+		stop := map[string]bool{}
+		for _, n := range c.Stop {
+			stop[n] = true
+		}
+		facts[c.Key] = structLits(f, fd, c.Type, 2, stop)
 	}
 	var names []string
 	for n := range mods {
